@@ -377,12 +377,14 @@ def singularityCheck(
     """
     inclined = isInclined(inc)
     eccentric = isEccentric(ecc)
+    # Longitudes of a retrograde equatorial orbit are measured in the direction of motion: the node counts negative
+    node = raan if inc < 0.5 * PI else -raan
     if inclined and eccentric:
         return wrapAngle2Pi(raan), wrapAngle2Pi(argp), wrapAngle2Pi(anomaly)
 
     if not inclined and eccentric:
         # RAAN, Ω, is undefined
-        true_long_rp = wrapAngle2Pi(raan + argp)
+        true_long_rp = wrapAngle2Pi(node + argp)
         return 0.0, true_long_rp, wrapAngle2Pi(anomaly)
 
     if inclined and not eccentric:
@@ -392,7 +394,7 @@ def singularityCheck(
 
     # else; Circular and Equatorial
     # RAAN, Ω, and Arg. Perigee, ω, are undefined
-    true_long = wrapAngle2Pi(anomaly + argp + raan)
+    true_long = wrapAngle2Pi(anomaly + argp + node)
     return 0.0, 0.0, true_long
 
 
